@@ -881,7 +881,10 @@ def lexer_correspondence(ctx, H, L, tables):
             r_err = sorted(l for l in ra if l.startswith("T ERROR") and any(k in l for k in ("$Unknown_symbol", "$Overflow", "$Comment_not_closed",
                                                                                          "$Identifier_is_too_long")))
             r_exp = [l for l in ra if l.startswith("T expect ")]
-            m_ids = [binascii.unhexlify(t.split("=", 1)[1]).decode("latin-1") for t in mt if t.startswith("T_ID=") or t.startswith("T_TYPENAME=")]
+            # is_type() is asked for every non-keyword match of the identifier rule and by a repaired one-letter literal rule
+            soft_tok = {"'%s'" % l: l for l in tables.get("soft", [])}
+            m_ids = [binascii.unhexlify(t.split("=", 1)[1]).decode("latin-1") if "=" in t else soft_tok[t]
+                     for t in mt if t.startswith("T_ID=") or t.startswith("T_TYPENAME=") or t in soft_tok]
             m_err = sorted({"ERR_UNKNOWN": 'T ERROR "$Unknown_symbol"', "ERR_OVERFLOW": 'T ERROR "$Overflow"',
                             "ERR_COMMENT": 'T ERROR "$Comment_not_closed"'}[t] for t in mt if t in ("ERR_UNKNOWN", "ERR_OVERFLOW", "ERR_COMMENT"))
             m_exp = [t for t in mt if t.startswith("EXPECT=")]
@@ -1135,11 +1138,9 @@ def exception_witnesses(ctx, H, exception_hits):
                         % (n, n, WITNESS_TYPEDEF % (n, n), d),
                         {"entry": "parse_XTA", "newxta": True, "original_b64": b64(WITNESS_TYPEDEF % ("B", "B")),
                          "rewritten_b64": b64(WITNESS_TYPEDEF % (n, n)), "renaming": {"B": n}, "difference": d})
-    # metamorphic hits of the same shape on corpus models must all be explained by it
-    for sp, its in exception_hits.items():
-        if "rename:typedef-named-" + sp not in ex:
-            # the shape is no longer an exception (e.g. repaired lexer): these pairs are ordinary tests now
-            return ex, [it for v in exception_hits.values() for it in v]
+    # metamorphic hits of the same shape on corpus models must all be explained by it; where the shape is no longer an
+    # exception (repaired lexer) the pairs are ordinary tests
+    leftover = [it for sp, its in exception_hits.items() if "rename:typedef-named-" + sp not in ex for it in its]
     # rename:syntax-error-names-one-letter-token
     t = "int v; v %s; process P() { state s; init s; } system P;"
     a0, a1 = H.run(["xta 1 " + hexs(t % "B"), "xta 1 " + hexs(t % "W")])
@@ -1164,7 +1165,7 @@ def exception_witnesses(ctx, H, exception_hits):
                     "do not close (%s)" % d,
                     {"entry": "parse_XTA", "newxta": True, "original_b64": b64(t % plain), "rewritten_b64": b64(t % expect), "difference": d})
     cov["exception_shapes_confirmed_on_implementation"] = ex
-    return ex, []
+    return ex, leftover
 
 
 def run(ctx):
@@ -1196,7 +1197,7 @@ def run(ctx):
         broken = core.failing_theorems(log)
         ctx.log("proof broken:", broken or log[-1500:])
     if tables is not None and not tie_err:
-        json.dump({k: tables[k] for k in ("rules", "keywords", "maxlen", "bits", "toks")} | {"grammar": tables["grammar"]},
+        json.dump({k: tables[k] for k in ("rules", "keywords", "maxlen", "bits", "toks", "soft", "expect_fixed")} | {"grammar": tables["grammar"]},
                   open(os.path.join(core.CACHE, "c09-last-tables.json"), "w"))
     # 3/4 the implementation ----------------------------------------------------------------------------------------
     b = core.build_repo(VARIANT)
